@@ -3,7 +3,8 @@
 //   SignedMessageCrl::{validate, verify_not_revoked}, SignedMessageTbsCrl::validate
 //   IdCert::{validate_ee_at, validate_ta_at, inspect_basics, inspect_ca_basics, verify_validity,
 //            verify_issuer_key, verify_signature}                    src/ca/idcert.rs
-//   SignedData::{verify_signature, signature}, Signature::algorithm, the error conversions
+//   SignedData::signature, Signature::algorithm, the error conversions
+//   (PublicKey::{verify, key_identifier}, SignedData::verify_signature: contract links to unit key_verify)
 // Main contract:  validate_at(peer, when) is Ok  <=>  msg_accept(self, peer, when)   (exact conjunction).
 // Environment: bcder / bytes / chrono / aws-lc / log are opaque; PublicKey, Time, Validity, SignedAttrs,
 // RevokedCertificates::contains are used through contracts (proved or assumed elsewhere, see .trusted).
@@ -32,11 +33,6 @@ impl Bytes {
 // bcder::Captured (stand-in + `captured_view`), `der_len`, `set_of_encoding`, `SignedAttrs::view`:
 // the vocabulary of SignedAttrs::encode_verify, shared with unit sigattrs which proves it
 //@include shared/cms_vocab.v.rs
-impl Captured {
-    /// AsRef<[u8]> for Captured
-    #[verifier::external_body]
-    pub fn as_ref(&self) -> (r: &[u8]) ensures r@ == captured_view(*self) { unimplemented!() }
-}
 #[verifier::external_body]
 #[verifier::reject_recursive_types(T)]
 pub struct Oid<T> { _o: T }
@@ -95,20 +91,23 @@ pub struct PublicKey { _o: u8 }
 //@item src/crypto/signature.rs :: pub struct Signature<Alg> pubfields
 //@item src/crypto/signature.rs :: pub type RpkiSignature
 //@item src/crypto/digest.rs :: pub struct DigestAlgorithm pubfields keepderive=Clone,Copy
-pub trait SignatureAlgorithm: Sized { }
+// `sig_ok(key, msg, sig)`: the signature `sig` (algorithm identifier and value) over `msg` verifies under `key`
+// -- abstract here, DEFINED in unit key_verify (format match && aws-lc primitive), which proves the linked
+// contracts of PublicKey::verify and SignedData::verify_signature
+//@include shared/sig_vocab.v.rs
 impl SignatureAlgorithm for RpkiSignatureAlgorithm { }
-/// the signature `sig` (algorithm identifier and value) over `msg` verifies under `key`
-pub uninterp spec fn sig_ok<Alg>(key: PublicKey, msg: Seq<u8>, sig: Signature<Alg>) -> bool;
-/// SHA-1 key identifier of a public key
-pub uninterp spec fn ski_of(key: PublicKey) -> KeyIdentifier;
+// `ski_of(key)`: SHA-1 key identifier of a public key -- abstract here, DEFINED in unit key_verify, which proves
+// the linked contract of PublicKey::key_identifier
+//@include shared/ski_vocab.v.rs
 impl PublicKey {
-    #[verifier::external_body]
-    pub fn key_identifier(&self) -> (r: KeyIdentifier) ensures r == ski_of(*self) { unimplemented!() }
-    /// crypto assumed: Ok exactly when the signature verifies
-    #[verifier::external_body]
+    /// contract link: proved in unit key_verify (SHA-1 over the key bits, both unwrap()s panic-free)
+    //@stub key_verify :: impl PublicKey :: key_identifier
+    pub fn key_identifier(&self) -> (r: KeyIdentifier)
+    //@end
+    /// contract link: proved in unit key_verify (algorithm check + dispatch to the aws-lc primitive)
+    //@stub key_verify :: impl PublicKey :: verify
     pub fn verify<Alg: SignatureAlgorithm>(&self, message: &[u8], signature: &Signature<Alg>) -> (r: Result<(), SignatureVerificationError>)
-        ensures r.is_ok() == sig_ok(*self, message@, *signature)
-    { unimplemented!() }
+    //@end
 }
 impl<Alg> Signature<Alg> {
     //@fn src/crypto/signature.rs :: impl<Alg> Signature<Alg> :: algorithm
@@ -203,10 +202,9 @@ impl<Alg> SignedData<Alg> {
     //@end
 }
 impl<Alg: SignatureAlgorithm> SignedData<Alg> {
-    //@fn src/repository/x509.rs :: impl<Alg: SignatureAlgorithm> SignedData<Alg> :: verify_signature
-    //@spec
-        ensures r.is_ok() == sig_ok(*public_key, captured_view(self.data), self.signature),
-    //@/spec
+    /// contract link: proved in unit key_verify (= PublicKey::verify over the captured octets), text taken from there
+    //@stub key_verify :: verify_signature
+    pub fn verify_signature(&self, public_key: &PublicKey) -> (r: Result<(), SignatureVerificationError>)
     //@end
 }
 //@item src/repository/sigobj.rs :: pub struct SignedAttrs pubfields
